@@ -290,7 +290,7 @@ def ix1(model):
 def ix2a(model):
     r = RuleResult('IX2a', 'an argument is never empty: every return of arg_buffer yields a '
                    'buffer over at least one token, and expand_arguments gives every mandatory '
-                   'argument (code A) the tokens of arg_buffer or a VoidToken', floor=6)
+                   'argument (code A) the tokens of arg_buffer or a VoidToken', floor=3)
     f = model.func('parser.Parser.arg_buffer')
     for n in iter_scope(f.node):
         if isinstance(n, ast.Return):
